@@ -393,8 +393,6 @@ def file_expr(path, snap, got):
         return None
     if any(t not in per for per in snap["cf"].values() for t in snap["cells"]) or any(len(c) == 0 for c in snap["cells"].values()):
         return None
-    if any(np.asarray(c).dtype == object for c in snap["cells"].values()):
-        return None           # ragged polygons: outside the `rectangular` hypothesis of the whole-file theorem (content still checked)
 
     def darr(vt, nc, text):
         return f"{{| da_type := {VT[vt]}; da_nc := {nc}; da_text := {G.hx(text)} |}}"
@@ -423,7 +421,10 @@ def file_expr(path, snap, got):
         cds.append(f"({G.hx(n.encode())}, ({DT2V[str(a0.dtype.newbyteorder('='))]}, {comps}, "
                    f"{lib.clist([zl(bit_rows(x)) for x in per], '(list (list Z))')}))")
     cd = lib.clist(cds, "(bytes * (vtype * N * list (list (list Z))))")
-    idt = np.result_type(*[np.asarray(c).dtype for c in snap["cells"].values()])
+    def corner_dtype(c):     # polygons of differing corner counts are held as an object array of integer rows
+        c = np.asarray(c)
+        return c.dtype if c.dtype != object else np.result_type(*[np.asarray(r).dtype for r in c])
+    idt = np.result_type(*[corner_dtype(c) for c in snap["cells"].values()])
     d = f"{{| v_points := {narr(p, 3)}; v_groups := {groups}; v_itype := {DT2V[str(idt.newbyteorder('='))]}; v_pdata := {pd}; v_cdata := {cd} |}}"
     cells = {a[0]: a for a in by["Cells"]}
     pts = by["Points"][0]
